@@ -40,7 +40,9 @@ Deep == FALSE
 DeepOn == TRUE
 Masks == {{1}, {2, 3}, {1, 2, 3}} \cup (IF Deep THEN {{2}, {3}, {1, 3}} ELSE {})
 \* a plan entry: <<lhs, plan transform, when_data, periods>>
-Entries(m) == {<<pp[1], pp[2], wd, mask>> : pp \in PlanPairs[m], wd \in BOOLEAN, mask \in Masks}
+\* a plan entry: <<lhs, plan transform, when_data, periods, shift of the transform>> (shift -2 for the change transforms on periods 2, 3)
+Entries(m) == {<<pp[1], pp[2], wd, mask, CNeg1>> : pp \in PlanPairs[m], wd \in BOOLEAN, mask \in Masks}
+              \cup {<<pp[1], pp[2], FALSE, {2, 3}, CNeg2>> : pp \in {x \in PlanPairs[m] : x[2] \in {"diff", "pct", "diff_log"}}}      \* (roc against the value two periods back leaves the integers)
 PlanSets(m) == {{}} \cup {{e} : e \in Entries(m)}
                  \cup {{e1, e2} : e1 \in {e \in Entries(m) : e[4] = {2, 3} /\ ~e[3]}, e2 \in {e \in Entries(m) : e[4] = {1, 2, 3} /\ e[3]}}
                  \cup (IF Deep THEN {{e1, e2} : e1 \in {e \in Entries(m) : e[4] = {1, 3} /\ e[3]}, e2 \in {e \in Entries(m) : e[4] = {2} /\ ~e[3]}} ELSE {})
@@ -83,7 +85,7 @@ InitData(s) == [c \in AllNames(s) \X Periods |->
                   ELSE InitVal(s, c[1], c[2])]
 PlanFn(s) == [c \in LhsNames(s) \X Periods |->
                  IF \E e \in s.plan : e[1] = c[1] /\ c[2] \in e[4]
-                 THEN (LET e == CHOOSE x \in s.plan : x[1] = c[1] /\ c[2] \in x[4] IN [tr |-> e[2], when_data |-> e[3]])
+                 THEN (LET e == CHOOSE x \in s.plan : x[1] = c[1] /\ c[2] \in x[4] IN [tr |-> e[2], when_data |-> e[3], sh |-> e[5]])
                  ELSE NoPlan]
 Sched(s) == Schedule(s.order, Len(Eqs(s)), Span)
 
@@ -121,7 +123,7 @@ Inv_FinalHolds == (fin /\ ~stale) => \A i \in 1..Len(Eqs(sc)), k \in 1..Len(Span
 \* an exogenized variable takes the implied value (the value its plan transform gives from the input)
 Inv_ExogExact == fin => \A i \in 1..Len(Eqs(sc)), k \in 1..Len(Span) :
     LET eq == Eqs(sc)[i] t == Span[k] pl == PlanFn(sc)[<<eq.lhs, t>>] IN
-    (pl # NoPlan /\ ~eq.identity /\ ~stale /\ Implied(d, eq.lhs, pl.tr, t) # NaN) => d[<<eq.lhs, t>>] = Implied(d, eq.lhs, pl.tr, t)
+    (pl # NoPlan /\ ~eq.identity /\ ~stale /\ Implied(d, eq.lhs, pl.tr, t, pl.sh) # NaN) => d[<<eq.lhs, t>>] = Implied(d, eq.lhs, pl.tr, t, pl.sh)
 \* frame: only lhs cells inside the span and residuals of exogenized points change
 Inv_Frame == \A c \in DOMAIN d : d[c] # InitData(sc)[c] =>
     /\ c[2] >= 1
